@@ -165,6 +165,16 @@ def expr(w, x, depth, top=False):
                 w.w(", ")
             expr(w, a, depth, top=(a["e"] != "seq"))
         w.w(")")
+    elif e == "fun" and x.get("xb"):
+        # expression-bodied arrow (MiniAst!XArrow): the body is [return x]; compound bodies and object literals in parentheses
+        bx = x["body"][0]["x"]
+        w.w("(" + ", ".join(ident(p) for p in x["params"]) + ") => ")
+        if bx["e"] in ATOMS and bx["e"] != "obj":
+            expr(w, bx, depth)
+        else:
+            w.w("(")
+            expr(w, bx, depth, top=True)
+            w.w(")")
     elif e == "fun":
         if x["arrow"]:
             w.w("(" + ", ".join(ident(p) for p in x["params"]) + ") => {")
